@@ -349,6 +349,53 @@ Proof.
       rewrite (const_lookup cls c fs s Ec Esc). rewrite Ef. exact Hv.
 Qed.
 
+(* every present attribute value appears under the member name the mapping prescribes *)
+Lemma member_present cls ctx scls classes fs attrs a x :
+  swf pm SM (KObj classes ctx) (VObj cls fs) = true -> tmem3 (cls, ctx, scls) TR = true ->
+  sfind (cls ++ ctx) SM = Some attrs -> In a attrs ->
+  In (a_name a, x) fs -> x <> VNone -> x <> VList [] ->
+  exists c w ms, sfind cls T = Some c /\ find_w (a_name a) (c_w c) = Some w /\ w_member w = a_member a /\
+                 EA (VObj cls fs) = DObj ms /\
+                 (simple_cond (w_cond w) = true -> sfind (a_member a) ms = Some (enc_with EA (w_enc w) x)).
+Proof.
+  intros Hwf Htr Ea Hain Hxin Hn1 Hn2. pose proof (triple_in _ Htr) as Hok. unfold triple_ok in Hok.
+  rewrite swf_obj in Hwf. apply andb_prop in Hwf. destruct Hwf as [_ Hal]. rewrite Ea in Hal, Hok.
+  destruct (sfind cls T) as [c|] eqn:Ec; [|discriminate].
+  destruct (sfind scls S) as [ps|] eqn:Es; [|discriminate].
+  apply andb_prop in Hok. destruct Hok as [Hok _]. apply andb_prop in Hok. destruct Hok as [Hok Hattrs].
+  apply andb_prop in Hok. destruct Hok as [Hok _]. apply andb_prop in Hok. destruct Hok as [HndA HndW].
+  apply nodup_str_NoDup in HndA, HndW.
+  pose proof (saligned_forall2 pm SM attrs fs Hal) as Hf2.
+  assert (Hkeys : map fst fs = map a_name attrs) by (eapply Forall2_keys; exact Hf2).
+  assert (Hfs : NoDup (map fst fs)) by now rewrite Hkeys.
+  rewrite forallb_forall in Hattrs. pose proof (Hattrs _ Hain) as Hao. unfold attr_ok in Hao.
+  destruct (find_w (a_name a) (c_w c)) as [w|] eqn:Ew; [|discriminate].
+  apply andb_prop in Hao. destruct Hao as [Hao _]. apply andb_prop in Hao. destruct Hao as [Hao _].
+  apply andb_prop in Hao. destruct Hao as [Hm Hp]. apply String.eqb_eq in Hm.
+  exists c, w, (map (fun kv : string * string => (fst kv, DStr (snd kv))) (c_consts c) ++ fields_of T lt c fs fs)%list.
+  repeat split; auto; [apply (enc_obj_unfold T lt cls fs c Ec)|].
+  intros Hs. rewrite <- Hm. rewrite (ms_lookup T lt c fs HndW Hfs (a_name a) w Ew).
+  rewrite (In_sfind fs (a_name a) x Hfs Hxin).
+  assert (Hsw : swf pm SM (a_kind a) x = true).
+  { destruct (Forall2_In_r _ _ _ (a_name a, x) Hf2 Hxin) as [a' [Ha' [Hn Hx]]]. cbn [fst snd] in Hn, Hx.
+    assert (a' = a) by (eapply NoDup_map_inj; eauto). subst a'. destruct x; try exact Hx. congruence. }
+  assert (Hc : cond_holds lt (w_cond w) fs x = true).
+  { destruct (w_cond w); try discriminate Hs; cbn [cond_holds].
+    - reflexivity.
+    - cbn [present_ok] in Hp. destruct (a_kind a) as [f| |ms|f|cl cx|k' mn|ms]; try discriminate Hp;
+        destruct x; try discriminate Hsw; cbn [truthy]; try reflexivity.
+      + cbn [swf] in Hsw. unfold facets_ok in Hsw. apply andb_prop in Hsw. destruct Hsw as [Hsw _].
+        apply andb_prop in Hsw. destruct Hsw as [Hsw _]. cbn [kind_truthy_present] in Hp. apply N.leb_le in Hp, Hsw.
+        destruct (String.eqb_spec s ""); [|reflexivity]. subst s. cbn in Hsw. lia.
+      + cbn [kind_truthy_present] in Hp. cbn [swf] in Hsw. destruct (String.eqb_spec s ""); [|reflexivity].
+        subst s. rewrite Hsw in Hp. discriminate.
+      + destruct l; [congruence|reflexivity].
+      + destruct l; [congruence|reflexivity].
+    - destruct x; [congruence|reflexivity..].
+    - destruct x; try reflexivity. destruct l; [congruence|reflexivity]. }
+  now rewrite Hc.
+Qed.
+
 (* a whole object of a class reachable from the environment *)
 Lemma write_object cls scls v :
   tmem3 (cls, "", scls) TR = true -> swf pm SM (KObj [cls] "") v = true ->
